@@ -61,8 +61,9 @@ def gen_program(rnd, width, length):
             meta = rnd.choice([None, None, {"k": rnd.randint(0, 5)}, {}])
             # sometimes an operation with fewer outputs than inputs: an index is still rebound to "the output at the argument's position"
             n_out = arity - 1 if (arity > 1 and rnd.random() < 0.25) else arity
-            prog.append(("add", arity, args, meta, rnd.random() < 0.3, n_out))
-            n_wires += arity
+            again = rnd.random() < 0.2        # the same Command object added a second time
+            prog.append(("add", arity, args, meta, rnd.random() < 0.3, n_out, again))
+            n_wires += arity * (2 if again else 1)
     prog.append(rnd.choice([("set_tracked_outputs",), ("set_indexed_outputs", [rnd.choice([("i", i) for i, p in enumerate(shadow) if p] + [("w", 0)]) for _ in range(rnd.randint(0, 3))])]))
     return prog
 
@@ -144,10 +145,12 @@ def run_program(prog, width):
             if list(t.tracked) != before or t.hugr.num_nodes() != nb:
                 return f"step {k}: failed {kind} changed the builder"
         elif kind == "add":
-            _, arity, args, meta, via_extend, n_out = st
+            _, arity, args, meta, via_extend, n_out = st[:6]
+            again = len(st) > 6 and st[6]
             op_t, op_e = make_op(arity, n_out), make_op(arity, n_out)
             targs = [a[1] if a[0] == "i" else wires_t[a[1]] for a in args]
-            eargs = [wires_e[shadow[norm(a[1])]] if a[0] == "i" else wires_e[a[1]] for a in args]
+            com_t = op_t(*targs)          # one Command object; when `again`, it is added twice
+
             def both(ft, fe):
                 """run the step on both builders; an index bound to a port the operation does not have makes both raise alike"""
                 rt = re_ = None
@@ -160,24 +163,31 @@ def run_program(prog, width):
                 except Exception as ex:  # noqa: BLE001
                     re_ = ex
                 return rt, re_
-            if via_extend and meta is None:
-                rt, re_ = both(lambda: t.extend(op_t(*targs))[0], lambda: e.extend(op_e(*eargs))[0])
-            else:
-                rt, re_ = both(lambda: t.add(op_t(*targs), metadata=meta), lambda: e.add(op_e(*eargs), metadata=meta))
-            if isinstance(rt, Exception) or isinstance(re_, Exception):
-                if type(rt) is type(re_):
-                    return None          # both refuse the same way (a wire naming a port that does not exist): equivalent, nothing more to compare
-                return f"step {k}: the tracked builder gave {rt!r}, the explicit program {re_!r}"
-            nt, ne = rt, re_
-            if nt.idx != ne.idx:
-                return f"step {k}: node index {nt.idx} vs explicit {ne.idx}"
-            base = len(wires_t)
-            from hugr.hugr.node_port import OutPort
-            wires_t += [OutPort(nt, j) for j in range(arity)]        # ports named directly: the oracle does not go through Node.out
-            wires_e += [OutPort(ne, j) for j in range(arity)]
-            for pos, a in enumerate(args):
-                if a[0] == "i":
-                    shadow[norm(a[1])] = base + pos
+            for _rep in range(2 if again else 1):
+                # the explicit program: the wires the shadow table holds *now* for the indices
+                eargs = [wires_e[shadow[norm(a[1])]] if a[0] == "i" else wires_e[a[1]] for a in args]
+                if via_extend and meta is None:
+                    rt, re_ = both(lambda: t.extend(com_t)[0], lambda: e.extend(op_e(*eargs))[0])
+                else:
+                    rt, re_ = both(lambda: t.add(com_t, metadata=meta), lambda: e.add(op_e(*eargs), metadata=meta))
+                if isinstance(rt, Exception) or isinstance(re_, Exception):
+                    if type(rt) is type(re_):
+                        return None          # both refuse the same way (a wire naming a port that does not exist): equivalent, nothing more to compare
+                    return f"step {k}: the tracked builder gave {rt!r}, the explicit program {re_!r}"
+                nt, ne = rt, re_
+                if nt.idx != ne.idx:
+                    return f"step {k}: node index {nt.idx} vs explicit {ne.idx}"
+                base = len(wires_t)
+                from hugr.hugr.node_port import OutPort
+                wires_t += [OutPort(nt, j) for j in range(arity)]        # ports named directly: the oracle does not go through Node.out
+                wires_e += [OutPort(ne, j) for j in range(arity)]
+                for pos, a in enumerate(args):
+                    if a[0] == "i":
+                        shadow[norm(a[1])] = base + pos
+                if _rep == 0 and again:
+                    why = same_table(k)
+                    if why:
+                        return why + " (after the first of two uses of one command)"
         elif kind in ("set_tracked_outputs", "set_indexed_outputs"):
             def run(f):
                 try:
